@@ -18,6 +18,7 @@ import M17.Model.Dsp
 import M17.Gen.Taps
 import M17.Spec.Tx
 import M17.Model.Mod
+import M17.Model.Dcd
 
 open M17
 
@@ -112,6 +113,21 @@ def tapFloat (p : Int × Nat) : Float := Float.ofInt p.1 * Float.exp2 (Float.ofI
 def tapFloat32 (p : Int × Nat) : Float32 := (tapFloat p).toFloat32
 
 def dblBits (y : Float) : Int := let b := Int.ofNat y.toBits.toNat; if b ≥ 2 ^ 63 then b - 2 ^ 64 else b
+
+/-- dcd_seq <level bits> <triggered> then per step: <level_1 bits> <level_2 bits>, or -1 0 for unlock() -> per step: level bits, dcd() -/
+def dcdSeq (lvl trig : Int) (toks : List Int) : String :=
+  let lo := Float32.ofBits (UInt32.ofNat Gen.dcdLoBits)
+  let hi := Float32.ofBits (UInt32.ofNat Gen.dcdHiBits)
+  let rec go (fuel : Nat) (toks : List Int) (s : Dcd.State Float32) (acc : List Int) : List Int :=
+    match fuel, toks with
+    | fu+1, a :: b :: rest =>
+      let s' := if a < 0 then Dcd.unlock s
+                else Dcd.update Dcd.f32ops lo hi s (Float32.ofBits (UInt32.ofNat a.toNat)) (Float32.ofBits (UInt32.ofNat b.toNat))
+      -- NaN payloads are not compared: canonical NaN pattern
+      let bits : Int := if s'.level.isNaN then -1 else Int.ofNat s'.level.toBits.toNat
+      go fu rest s' (acc ++ [bits, if s'.triggered then 1 else 0])
+    | _, _ => acc
+  joinInts (go (toks.length + 1) toks { level := Float32.ofBits (UInt32.ofNat lvl.toNat), triggered := trig != 0 } [])
 
 def firRun {α : Type} [Add α] [Sub α] [Mul α] [OfNat α 0] (taps : List α) (conv : Int → α) (show_ : α → Int) (toks : List Int) : String :=
   let rec go (fuel : Nat) (toks : List Int) (f : Dsp.Fir α) (acc : List Int) : List Int :=
@@ -218,6 +234,8 @@ def handle (st : DrvState) (op : String) (a : List Int) : DrvState × String :=
       let r := Llr.llr tbl v
       [r.1, r.2]
     (st, joinInts outs)
+  | "dcd_seq", lvl :: trig :: toks =>
+    (st, dcdSeq lvl trig toks)
   | "fir", d :: toks =>
     if d != 0 then (st, firRun (Gen.rxTapsD.map tapFloat) (fun n => Float.ofInt n / 4096) dblBits toks)
     else (st, firRun (Gen.rxTapsF.map tapFloat32) (fun n => (Float.ofInt n).toFloat32 / 4096) (fun y => Int.ofNat y.toBits.toNat) toks)
